@@ -36,6 +36,9 @@ type refFn func(xs []float64) (v float64, g []float64, h [][]float64, ok bool)
 // evalOp runs one library operation on fresh variables.
 func evalOp(site string, kind, order int, xs []float64, par float64, k int) (res adScalar, pk int) {
 	n := len(xs)
+	// "Op(alias)": the receiver is the first operand itself (c.Op(c, ...))
+	alias := strings.HasSuffix(site, "(alias)")
+	site = strings.TrimSuffix(site, "(alias)")
 	regs := map[int]adScalar{}
 	vars := []ad.MagicScalar{}
 	for i, x := range xs {
@@ -90,6 +93,10 @@ func evalOp(site string, kind, order int, xs []float64, par float64, k int) (res
 	}
 	if site != "ABS(concrete)" && strings.HasSuffix(site, "(concrete)") {
 		in.Op, in.Conc = strings.TrimSuffix(site, "(concrete)"), true
+	}
+	if alias {
+		in.C = 0
+		c = 0
 	}
 	pk = execGo(regs, &in)
 	return regs[c], pk
@@ -220,6 +227,7 @@ func checkPoint(site string, kind, order int, xs []float64, par float64, k int) 
 	}
 	// (ii) closed forms
 	full := site
+	site = strings.TrimSuffix(site, "(alias)")
 	if site != "ABS(concrete)" {
 		site = strings.TrimSuffix(site, "(concrete)")
 	}
@@ -245,7 +253,12 @@ func checkPoint(site string, kind, order int, xs []float64, par float64, k int) 
 	}
 	scale := math.Abs(val)
 	if have {
-		if !close(val, rv, eps, 0) {
+		vscale := 0.0
+		if strings.HasPrefix(site, "LogSub") || strings.HasPrefix(site, "LogAdd") {
+			// a + log(1 -+ exp(b-a)) cancels: the rounding error is relative to the operands, not to the result
+			vscale = math.Abs(xs[0]) + math.Abs(xs[1])
+		}
+		if !close(val, rv, eps, vscale) {
 			return fmt.Sprintf("value %v, closed form %v", val, rv)
 		}
 		for i := 0; i < n; i++ {
@@ -343,6 +356,18 @@ var sweeps = []sweep{
 	{"Sigmoid", 1, domain{1e-3, 30, true, []float64{0, math.Copysign(0, -1)}}, nil, nil},
 	{"Logistic", 1, domain{1e-3, 30, true, nil}, nil, nil},
 	{"Log1pExp", 1, domain{1e-2, 60, true, []float64{-37, math.Nextafter(-37, 0), math.Nextafter(-37, -40), 18, math.Nextafter(18, 0), math.Nextafter(18, 20), 33.3, math.Nextafter(33.3, 0), math.Nextafter(33.3, 40), 20, 25, 30, -40, 35}}, nil, nil},
+	// receiver = operand (c.Op(c)): the composite programs must not read an operand they have overwritten
+	{"Log1pExp(alias)", 1, domain{1e-2, 60, true, []float64{-37, 18, math.Nextafter(18, 20), 33.3, math.Nextafter(33.3, 40), 19, 20, 25, 30, 33, -40, 35}}, nil, nil},
+	{"Sigmoid(alias)", 1, domain{1e-3, 30, true, []float64{0}}, nil, nil},
+	{"Logistic(alias)", 1, domain{1e-3, 30, true, nil}, nil, nil},
+	{"Sqrt(alias)", 1, domain{1e-4, 1e4, false, nil}, nil, nil},
+	{"Abs(alias)", 1, domain{1e-2, 1e3, true, nil}, nil, nil},
+	{"Exp(alias)", 1, domain{1e-3, 200, true, nil}, nil, nil},
+	{"Mul(alias)", 2, domain{1e-2, 1e2, true, nil}, nil, nil},
+	{"Div(alias)", 2, domain{1e-2, 1e2, true, nil}, nil, nil},
+	{"Pow(alias)", 2, domain{0.1, 8, false, nil}, nil, nil},
+	{"LogAdd(alias)", 2, domain{1e-2, 30, true, nil}, nil, nil},
+	{"LogSub(alias)", 2, domain{1e-2, 30, true, nil}, nil, nil},
 	{"Add(concrete)", 2, domain{1e-2, 1e2, true, nil}, nil, nil},
 	{"Sub(concrete)", 2, domain{1e-2, 1e2, true, nil}, nil, nil},
 	{"Mul(concrete)", 2, domain{1e-2, 1e2, true, nil}, nil, nil},
@@ -378,6 +403,8 @@ func recheck(h HuntHit) *HuntHit {
 	switch h.Class {
 	case "panic":
 		f = knownWitness(h.Site)
+	case "stale":
+		f = staleCheck(strings.TrimSuffix(h.Site, "(reused receiver)"), h.Kind, h.Order, h.K)
 	default:
 		f = checkPoint(h.Site, h.Kind, h.Order, h.Xs, h.Par, h.K)
 	}
@@ -458,6 +485,10 @@ func hunt(o Opts) {
 			}
 		}
 	}
+	// restarted registers: fresh vs reused receiver (streams.go)
+	sh, sc := staleHunt()
+	hits = append(hits, sh...)
+	count += sc
 	// known-defect witnesses (replayed on every run)
 	for _, site := range []string{"Set:order-assigned-before-Alloc", "LogErfc:second-derivative-overflow"} {
 		if f := knownWitness(site); f != "" {
